@@ -294,20 +294,8 @@ theorem tok_encoded_head {bad : List Char} {s : List Char} (h : Tok bad s) (X : 
 
 /-! ### delimiters -/
 
-structure Delims (kd fd : Char) : Prop where
-  ne : kd ≠ fd
-  kd_ws : isWs kd = false
-  kd_dq : kd ≠ '"'
-  kd_sq : kd ≠ '\''
-  fd_ws : fd = ' ' ∨ isWs fd = false
-  fd_dq : fd ≠ '"'
-  fd_sq : fd ≠ '\''
-
-theorem delims_of_ok {kd fd : Char} (h : delimOK kd fd = true) : Delims kd fd := by
-  simp only [delimOK, Bool.and_eq_true, bne_iff_ne, ne_eq, Bool.not_eq_true',
-    Bool.or_eq_true, beq_iff_eq] at h
-  obtain ⟨⟨⟨⟨⟨⟨⟨⟨a, b⟩, c⟩, d⟩, _⟩, e⟩, f⟩, g⟩, _⟩ := h
-  exact ⟨a, b, c, d, e, f, g⟩
+theorem delimOK_iff {kd : Char} : delimOK kd = true ↔ kd ≠ ' ' ∧ kd ≠ '\t' := by
+  simp [delimOK]
 
 /-- `parse_field_delimiter(fd)` on the delimiter followed by an encoded token. -/
 theorem parseFieldDelim_at (fd : Char) (c : Char) (t : List Char) (hc : c ≠ ' ') :
@@ -383,10 +371,9 @@ theorem parseValue_enc {fd : Char} {v R : List Char}
       rw [this]
       simp [trim_id _ hws]
 
-theorem parseKey_enc {kd fd : Char} (hd : Delims kd fd) (sk : Bool) {k R : List Char}
+theorem parseKey_enc {kd fd : Char} (sk : Bool) {k R : List Char}
     (hk : Tok [kd, fd] k) :
     parseKey [kd] [fd] sk (encodeString k ++ kd :: R) = some (k, kd :: R) := by
-  have kd_sp : kd ≠ ' ' := (not_ws_ne_space hd.kd_ws).1
   have peek : ((parseFieldDelim [kd] (kd :: R)).isSome || (space0 (kd :: R)).isEmpty) = true := by
     simp [parseFieldDelim_isSome]
   cases hk with
@@ -440,11 +427,10 @@ theorem parseKey_enc {kd fd : Char} (hd : Delims kd fd) (sk : Bool) {k R : List 
 
 /-! ### one `key=value` field, the field loop, the whole line -/
 
-theorem parseSepOpt_at (c : Cfg) {kd : Char} (hkd : c.kd = [kd]) (hws : isWs kd = false)
+theorem parseSepOpt_at (c : Cfg) {kd : Char} (hkd : c.kd = [kd]) (hd : delimOK kd = true)
     (x : Char) (t : List Char) (hx1 : x ≠ ' ') (hx2 : x ≠ '\t') :
     parseSepOpt c (kd :: x :: t) = some (1, x :: t) := by
-  have k1 := (not_ws_ne_space hws).1
-  have k2 := (not_ws_ne_space hws).2.1
+  obtain ⟨k1, k2⟩ := delimOK_iff.mp hd
   unfold parseSepOpt parseSep
   cases hw : c.ws with
   | strict => simp [hkd, tag]
@@ -459,7 +445,7 @@ theorem encodeField_single (kd : Char) (k v : List Char) :
   simp [encodeField, encField]
 
 theorem parseKeyValue_enc (c : Cfg) {kd fd : Char} (hkd : c.kd = [kd]) (hfd : c.fd = [fd])
-    (hd : Delims kd fd) {k v R : List Char} (hk : Tok [kd, fd] k) (hv : Tok [fd] v)
+    (hd : delimOK kd = true) {k v R : List Char} (hk : Tok [kd, fd] k) (hv : Tok [fd] v)
     (hR : AfterValue fd R) :
     parseKeyValue c (encField kd (k, v) ++ R) = some ((k, .str v), R) := by
   obtain ⟨x, t, ex, x1, x2⟩ := tok_encoded_head hk (kd :: (encodeString v ++ R))
@@ -467,9 +453,9 @@ theorem parseKeyValue_enc (c : Cfg) {kd fd : Char} (hkd : c.kd = [kd]) (hfd : c.
   have e1 : encField kd (k, v) ++ R = encodeString k ++ kd :: (encodeString v ++ R) := by
     simp [encField]
   unfold parseKeyValue
-  rw [e1, ex, space0_head x t x1 x2, ← ex, hkd, hfd, parseKey_enc hd c.standalone hk]
+  rw [e1, ex, space0_head x t x1 x2, ← ex, hkd, hfd, parseKey_enc c.standalone hk]
   simp only
-  rw [ey, parseSepOpt_at c hkd hd.kd_ws y u y1 y2]
+  rw [ey, parseSepOpt_at c hkd hd y u y1 y2]
   simp only
   rw [← ey, parseValue_enc hv hR]
   simp
@@ -495,7 +481,7 @@ theorem sepLoop_step (c : Cfg) (n : Nat) (i i1 i2 : List Char) (o : List Char ×
   simp [sepLoop, h1, h2, h3]
 
 theorem sepLoop_enc (c : Cfg) {kd fd : Char} (hkd : c.kd = [kd]) (hfd : c.fd = [fd])
-    (hd : Delims kd fd) : ∀ (r : List (List Char × List Char)) (fuel : Nat),
+    (hd : delimOK kd = true) : ∀ (r : List (List Char × List Char)) (fuel : Nat),
     r.length < fuel →
     (∀ kv ∈ r, Tok [kd, fd] kv.1 ∧ Tok [fd] kv.2) →
     sepLoop c fuel (encRest kd fd r) = some (pairsOf r, []) := by
@@ -534,7 +520,7 @@ theorem length_le_encRest (kd fd : Char) (r : List (List Char × List Char)) :
   | cons kv r ih => simp [encRest]; omega
 
 theorem parsePairs_enc (c : Cfg) {kd fd : Char} (hkd : c.kd = [kd]) (hfd : c.fd = [fd])
-    (hd : Delims kd fd) (kv : List Char × List Char) (r : List (List Char × List Char))
+    (hd : delimOK kd = true) (kv : List Char × List Char) (r : List (List Char × List Char))
     (hs : ∀ p ∈ kv :: r, Tok [kd, fd] p.1 ∧ Tok [fd] p.2) :
     parsePairs c (encField kd kv ++ encRest kd fd r) = some (pairsOf (kv :: r)) := by
   obtain ⟨hk, hv⟩ := hs kv (by simp)
